@@ -7,8 +7,8 @@ CONSTANTS
   Registered <- Reg
   SameTime <- Same
   MaxBlocks = 1
-  MaxItems = 2
-  MaxGroup = 2
+  MaxItems = 3
+  MaxGroup = 1
   MaxExecOps = 1
   MaxLocalOps = 1
   SModes = {"both", "wnr", "rnw"}
